@@ -23,7 +23,11 @@ CONSTANT Fixed
 Queries == {"attrquery", "authnquery", "authzquery", "assertionid", "nameidmapping", "managenameid"}
 Types == {"authn", "logout_idp", "logout_sp"} \cup Queries
 Bindings == {"redirect", "post", "soap"}
-Sigs == {"none", "valid", "invalid", "wrapped"}
+\* wrapped: a forged request carrying the genuine signature (which references the genuine request nested below it);
+\* wrapped_ownref: a forged request whose own Signature child references the forged request itself (a copy with the
+\* Reference rewritten: it cannot verify) placed after an Extensions element that holds the genuine signed request -- the
+\* tool operates on the first Signature below the start node, which is the genuine one
+Sigs == {"none", "valid", "invalid", "wrapped", "wrapped_ownref"}
 Muts == {"none", "dest_foreign", "dest_absent", "dest_other_binding", "stale", "future", "wrong_root", "schema",
          "garbled_base64", "garbled_deflate", "truncated_xml", "not_xml"}
 \* issuerKey: metadata holds a signing key for the requester, or none
@@ -72,7 +76,7 @@ Verify ==
 \* ---- contract
 MustRefuse == \/ scn.mut \in {"dest_foreign", "stale", "future", "wrong_root", "schema", "garbled_base64",
                               "garbled_deflate", "truncated_xml", "not_xml"}
-              \/ scn.sig \in {"invalid", "wrapped"}
+              \/ scn.sig \in {"invalid", "wrapped", "wrapped_ownref"}
               \/ (scn.sig # "none" /\ scn.issuerKey = "nokey")          \* a signature must verify under the issuer's metadata key
               \/ ((scn.want \/ scn.certOnly) /\ scn.sig = "none")
 \* (the property is an "only if"; acceptance of valid requests is demanded as a sanity condition, except for the
